@@ -7,6 +7,7 @@ ops (macro ops executed by `harness/hcore/src/bin/timers.rs` at quiescent points
   `case <n> [tl]`                 fresh runtime, fresh target (`tl`: a thread-local actor on its own, frozen, thread); clock 0
   `sa <p>` `si <p>` `ea <p>` `ka <p>`   send_after / send_interval / exit_after / kill_after, period p µs
   `dsa <p>` `dsi <p>` `dea <p>` `dka <p>`   the same four through a `DerivedActorRef` (same model steps)
+  `csa <p>` `csi <p>` `cea <p>` `cka <p>`   the free functions `ractor::time::*` called with the target's `ActorCell`
   `adv <d>`                       tokio::time::advance(d µs), run to quiescence   (every time and duration is in µs)
   `advabort <d> <i>`              clock += d, abort timer i before the time driver runs
   `advstop <d>` `advkill <d>` `advdrain <d>`   clock += d, then the API call on the target
@@ -80,6 +81,11 @@ def parseMOp? (ws : List String) : Option MOp :=
   -- `DerivedActorRef::exit_after / kill_after`: must behave exactly like the two above
   | ["dea", p] => p.toNat?.map (MOp.create .exitAfter)
   | ["dka", p] => p.toNat?.map (MOp.create .killAfter)
+  -- the free functions `ractor::time::*` called directly with an `ActorCell`
+  | ["csa", p] => p.toNat?.map (MOp.create .sendAfter)
+  | ["csi", p] => p.toNat?.map (MOp.create .interval)
+  | ["cea", p] => p.toNat?.map (MOp.create .exitAfter)
+  | ["cka", p] => p.toNat?.map (MOp.create .killAfter)
   | ["adv", d] => d.toNat?.map MOp.adv
   | ["advabort", d, i] => do pure (MOp.advAbort (← d.toNat?) (← i.toNat?))
   | ["advstop", d] => d.toNat?.map MOp.advStop
